@@ -87,6 +87,8 @@ pub struct Probes {
     pub foreign_guards_dropped: u64,
     pub guards_taken_apart: u64,
     pub take_apart_refused: u64,
+    pub lock_refs_kept: u64,
+    pub lock_ref_refused: u64,
 }
 
 pub struct Runner<'a> {
@@ -474,6 +476,27 @@ impl<'r, 'a> St<'r, 'a> {
                 }
                 // performed by the caller of the scoped call once it has returned
                 BodyOp::EscapeData(_) => {}
+                BodyOp::KeepLockRef(i) => {
+                    if *i >= ctx.flat.len() || emptied || ctx.acq.api.is_scoped() {
+                        continue;
+                    }
+                    let mut layers = Vec::new();
+                    crate::caps::REFLECTED.with(|l| l.set(None));
+                    crate::caps::REFLECT.with(|a| a.set(true));
+                    let _ = h.visit(&ctx.flat[*i].path, &mut layers);
+                    crate::caps::REFLECT.with(|a| a.set(false));
+                    match crate::caps::REFLECTED.with(|l| l.take()) {
+                        Some((addr, rw)) => {
+                            self.probe(|p| p.lock_refs_kept += 1);
+                            let lid = ctx.flat[*i].lid;
+                            let mut ex = self.r.world.exposed.lock().unwrap();
+                            if !ex.iter().any(|e| e.0 == lid) {
+                                ex.push((lid, addr, rw));
+                            }
+                        }
+                        None => self.probe(|p| p.lock_ref_refused += 1),
+                    }
+                }
                 BodyOp::LendGuard(i) | BodyOp::SwapLent(i) => {
                     if *i >= ctx.flat.len() || emptied || ctx.acq.api.is_scoped() {
                         continue;
@@ -1244,6 +1267,8 @@ impl<'r, 'a> Th<'r, 'a> {
                 SNode::RefB(h) => self.run_api(h.get(), ctx),
                 SNode::PBoxedV(c) => self.run_api(&**c, ctx),
                 SNode::PRetryB(c) => self.run_api(&**c, ctx),
+                SNode::BoxedVM(c) => self.run_api(c, ctx),
+                SNode::BoxedVR(c) => self.run_api(c, ctx),
                 SNode::BoxedA2(c) => self.run_api(c, ctx),
                 SNode::RetryA3(c) => self.run_api(&**c, ctx),
             },
